@@ -295,17 +295,32 @@ def extra_legs(c):
     return ["dictp", "dictcr", "livedump"] if c == "ac" else []
 
 
+class ImportRewroteDictionary(Exception):
+    """the exported dictionary is the serialised form: importing it must leave it as it was exported"""
+
+
+def import_twice(from_dict, d, *args):
+    """import one exported dictionary, make sure the import left it untouched, and hand back a SECOND import of the very
+    same dictionary object (two objects imported from one dictionary are both the origin's equals)"""
+    d0 = copy.deepcopy(d)
+    from_dict(d, *args)
+    if d != d0 or jn(d) != jn(d0):
+        changed = sorted(k for k in set(d) | set(d0) if d.get(k, "<absent>") != d0.get(k, "<absent>"))
+        raise ImportRewroteDictionary(f"keys changed by from_dict: {changed}")
+    return from_dict(d, *args)
+
+
 def apply_transition(t, c, obj, parent):
     """one serialise/deserialise hop; returns the successor object (raises what the library raises)"""
     cls, model_name, conv = CLASSES[c]
     if t == "dict":
         if c == "ac":  # the collection carries its own parent description
-            return AnnotationCollection.from_dict(obj.to_dict(export_parent=True))
-        return cls.from_dict(obj.to_dict(), parent)
+            return import_twice(AnnotationCollection.from_dict, obj.to_dict(export_parent=True))
+        return import_twice(cls.from_dict, obj.to_dict(), parent)
     if t == "dictp":  # collection dictionary without the parent, parent handed over explicitly
-        return AnnotationCollection.from_dict(obj.to_dict(), parent)
+        return import_twice(AnnotationCollection.from_dict, obj.to_dict(), parent)
     if t == "dictcr":  # chunk-relative dictionary WITH the parent: refused (as documented) or faithful
-        return AnnotationCollection.from_dict(obj.to_dict(chromosome_relative_coordinates=False, export_parent=True))
+        return import_twice(AnnotationCollection.from_dict, obj.to_dict(chromosome_relative_coordinates=False, export_parent=True))
     if t == "pickle":
         return pickle.loads(pickle.dumps(obj))
     if t == "livedump":
